@@ -246,4 +246,48 @@ fn splice_h<T: 'static>(typed: bool, drop: bool, how: usize, fixed: bool, misrep
 }
 
 
+/// the public typed API (`AnyVecTyped::{drain,splice}`): range conversion + adapter, one item taken
+/// from the front (returned by value as T), then the adapter is dropped
+fn typed_api_h<T: 'static>(splice: bool, mk: fn() -> T) {
+    ghost_init();
+    let (len, cap) = sym_state();
+    let mut v = unsafe { mk_vec::<dyn None, T>(0, len, cap, false, false) };
+    reg(&v, 0);
+    let esz = size_of::<T>();
+    let has_w = len > 0;
+    let w = if has_w { witness_slot(TW, 0, len) } else { 0 };
+    let start = any_narrow();
+    let end = any_narrow();
+    kani::assume(start <= end && end <= len);
+    let take: bool = kani::any();
+    let f = if take && start < end { 1 } else { 0 };
+    tok_init(TV, esz);
+    let k = if splice { 1 } else { 0 };
+    {
+        let mut t = v.downcast_mut::<T>().unwrap();
+        if splice {
+            let mut it = t.splice(start..end, [mk()]);
+            kani::assert(it.len() == end - start, "typed splice: reports the range length");
+            if take { let x = it.next(); kani::assert(x.is_some() == (start < end), "typed splice: first item exactly when the range is non-empty"); core::mem::forget(x); }
+        } else {
+            let mut it = t.drain(start..end);
+            kani::assert(it.len() == end - start, "typed drain: reports the range length");
+            if take { let x = it.next(); kani::assert(x.is_some() == (start < end), "typed drain: first item exactly when the range is non-empty"); core::mem::forget(x); }
+        }
+    }
+    let len2 = v.len();
+    kani::assert(len2 == post::splice_len(len, start, end, k), "typed drain/splice API: len' as Vec");
+    kani::assert(g().out_count == f && g().total_destroyed == 0, "typed drain/splice API: exactly the taken item is moved out (no destructor: type without drop glue)");
+    if esz != 0 && has_w {
+        let kind = post::splice_old_kind(len, start, end, f, 0, w);
+        let pos = if kind == 0 { post::splice_old_pos(len, start, end, k, w) } else { 0 };
+        let (n, p, a, d, o) = obs(TW, 0, len2, pos);
+        let d = if kind == 1 { 1 } else { d };
+        kani::assert(post::fate_ok(kind, pos, n, p, a, d, o), "typed drain/splice API: every old element has the fate Vec gives it");
+    }
+    kani::cover!(take && start < end && end < len, "COV item taken, tail present");
+    kani::cover!(true, "REACHED");
+    core::mem::forget(v);
+}
+
 include!("k2_range.inst.rs");
